@@ -826,3 +826,120 @@ def r15_6_free_while_linked(ck, P):
                         ck.violation(R, f.name, 'free before unlink', '%s frees the object before unlinking it' % f.name, fr.loc())
     if n == 0:
         ck.incomplete(R, 'no list link/unlink site found (list vocabulary renamed?)')
+
+
+DERIVED_AT_USE = ('image_common.flags', 'image_common.extended_format_code')
+
+
+def r_validated_before_use(ck, P, rid):
+    """interprocedural must-precede: derived image state is read only after the validate function ran on that image"""
+    R = ck.rule(rid, 'every exported function validates an image parameter (a call of the validate function on that parameter dominates the use) before it, or an internal function it hands the parameter to, reads the derived fields common.flags / common.extended_format_code', floor=6)
+    v = common.find_validate(P)
+    V = common.validate_closure(P)
+    N = defaultdict(dict)
+
+    def arrivals(f, k, x):
+        """nullness states of param k ({None, True, False}) in which x is reached along a path that avoids validate (param k);
+        branches on `param k == NULL` are followed consistently"""
+        is_val = lambda c: c.op == 'call' and c.callee == v.name and c.a and f.strip_casts(c.a[0])[:2] == ['a', k]
+        out = set()
+        seen = set(); work = [(0, None)]
+        while work:
+            b, nul = work.pop()
+            if (b, nul) in seen:
+                continue
+            seen.add((b, nul))
+            blk = f.blocks[b]; stop = False
+            for y in blk.insts:
+                if y.i == x.i:
+                    out.add(nul); stop = True; break
+                if is_val(y):
+                    stop = True; break
+            if stop:
+                continue
+            t = blk.term
+            if t.op == 'br' and t.a:
+                c, pred, ops = f.cond(t.a[0])
+                if c is not None and c.op == 'icmp' and pred in ('eq', 'ne') and any(f.strip_casts(o)[:2] == ['a', k] for o in ops) and any(o[0] == 'n' for o in ops):
+                    for sidx, s_ in enumerate(t.d['succ']):
+                        isnull = (pred == 'eq') == (sidx == 0)
+                        if nul is not None and nul != isnull:
+                            continue
+                        work.append((s_, isnull))
+                    continue
+            for s_ in blk.succ:
+                work.append((s_, nul))
+        return out
+
+    # N[f][k] = (reason, only_when_non_null)
+    for f in P.functions():
+        if f in V:
+            continue
+        for x in f.insts():
+            if x.op != 'load':
+                continue
+            p = f.path(x.a[0])
+            lf = f.last_field(p)
+            if lf not in DERIVED_AT_USE or p[0][0] != 'arg':
+                continue
+            k = p[0][1]
+            if 'image' not in f.params[k][1]:
+                continue
+            ar = arrivals(f, k, x)
+            if ar:
+                old = N[f].get(k)
+                guarded = ar <= {False}
+                if old is None or (old[1] and not guarded):
+                    N[f][k] = ('reads %s (%s)' % (lf.split('.')[1], x.loc()), guarded)
+    changed = True
+    while changed:
+        changed = False
+        for f in P.functions():
+            if f in V:
+                continue
+            for c in f.calls():
+                g = P.resolve(f, c.callee)
+                if g is None or g in V:
+                    continue
+                for j, (why, guarded) in list(N.get(g, {}).items()):
+                    if j >= len(c.a):
+                        continue
+                    o = f.strip_casts(c.a[j])
+                    if o[0] != 'a':
+                        continue
+                    k = o[1]
+                    ar = arrivals(f, k, c)
+                    if guarded:
+                        ar = ar - {True}
+                    if not ar:
+                        continue
+                    g2 = ar <= {False}
+                    old = N[f].get(k)
+                    if old is None or (old[1] and not g2):
+                        N[f][k] = ('passes it to %s, which %s' % (g.name, why[:200]), g2); changed = True
+    n = 0
+    for f in common.public_api(P):
+        imgs = [i for i, (pn, pt) in enumerate(f.params) if 'pixman_image' in pt or 'union.pixman_image' in pt]
+        for k in imgs:
+            if k in N.get(f, {}):
+                n += 1; ck.saw(f)
+                ck.violation(R, f.name, 'image parameter %s used before validation' % f.params[k][0], '%s %s on a path that has not called %s (%s): flags computed for an earlier state of the image (or never) are trusted' % (f.name, N[f][k][0], v.name, f.params[k][0]), '%s:%d' % (f.unit.name, f.line))
+        # instances: exported functions that do use derived state of a parameter (directly or through callees) and validate first
+    for f in common.public_api(P):
+        uses = set()
+        for x in f.insts():
+            if x.op == 'load':
+                p = f.path(x.a[0]); lf = f.last_field(p)
+                if lf in DERIVED_AT_USE and p[0][0] == 'arg':
+                    uses.add(p[0][1])
+        for c in f.calls():
+            g = P.resolve(f, c.callee)
+            if g is not None and g not in V:
+                for j in N.get(g, {}):
+                    if j < len(c.a):
+                        o = f.strip_casts(c.a[j])
+                        if o[0] == 'a':
+                            uses.add(o[1])
+        for k in sorted(uses):
+            if k not in N.get(f, {}):
+                ck.saw(f); ck.ok(R, '%s validates %s before its derived state is read' % (f.name, f.params[k][0]))
